@@ -14,6 +14,7 @@ import (
 	"time"
 
 	"github.com/tinode/chat/server/auth"
+	"github.com/tinode/chat/server/db/vfmem"
 	"github.com/tinode/chat/server/store/types"
 	"github.com/tinode/chat/server/vfkit"
 )
@@ -155,6 +156,88 @@ func c14DetachRace(e *vfEnv, r *vfkit.R, rng *rand.Rand, idx int) {
 	}
 	if f2 != nil && f2.code() == 200 {
 		r.Violation("resubscribed-session-lost-its-subscription", "a session which re-subscribed while an older detach request was pending was not found attached by its next {sub} (answered 200 instead of 304)", map[string]any{"script": script})
+	}
+}
+
+// c14DeleteDuringLoad: a group is being loaded for a {sub} (the store is slow) when its owner deletes it through
+// a session which is not attached: the load then fails. Both requests must be answered, nothing may stay parked,
+// and the subscriber's session must go on being served.
+func c14DeleteDuringLoad(e *vfEnv, r *vfkit.R, rng *rand.Rand, idx int) {
+	w := vfNewWorld(e, r, rng)
+	defer func() { w.closeAll(); e.vfQuiesceD(20 * time.Second) }()
+	uo, um := w.user(fmt.Sprintf("l%do", idx), auth.LevelAuth), w.user(fmt.Sprintf("l%dm", idx), auth.LevelAuth)
+	o, m := w.conn(uo, false), w.conn(um, false)
+	var grp, mName, oName string
+	if idx%2 == 0 {
+		var f *vfFrame
+		grp, f = o.newGroup(false, map[string]any{"public": "load-delete"})
+		if f == nil || f.code() != 200 {
+			r.Inconclusive("c14 delete during load: create failed")
+			return
+		}
+		mName, oName = grp, grp
+		m.sub(grp, nil)
+		m.leave(grp, false)
+		o.leave(grp, false)
+	} else {
+		// the same with a p2p topic: one participant loads it, the other one deletes it
+		grp = uo.uid.P2PName(um.uid)
+		mName, oName = uo.uid.UserId(), um.uid.UserId()
+		o.sub(oName, nil)
+		m.sub(mName, nil)
+		o.pub(oName, "hello", false, nil)
+		m.leave(mName, false)
+		o.leave(oName, false)
+	}
+	e.vfQuiesce()
+	if !e.vfWaitUnloaded(grp) {
+		r.Inconclusive("c14 delete during load: topic not unloaded")
+		return
+	}
+	loading := make(chan struct{}, 1)
+	// the load is held at its first store call (even runs) or at its second one (odd runs: the topic record has
+	// been read, whatever is read next is gone)
+	var ncall int32
+	holdAt := int32(1 + (idx/2)%2)
+	vfRec.setFault(func(c *vfmem.Call) error {
+		if c.Topic == grp && atomic.AddInt32(&ncall, 1) == holdAt {
+			loading <- struct{}{}
+			time.Sleep(150 * time.Millisecond)
+		}
+		return nil
+	})
+	fromM := m.frameCount()
+	idSub := m.send("sub", map[string]any{"topic": mName})
+	select {
+	case <-loading:
+	case <-time.After(5 * time.Second):
+		vfRec.setFault(nil)
+		r.InfoAdd("delete_during_load_not_reached", 1)
+		return
+	}
+	fd := o.del(oName, "topic", map[string]any{"hard": true})
+	fs := m.waitCtrl(idSub, fromM, vfReplyWait)
+	vfRec.setFault(nil)
+	settled := e.vfQuiesceD(20 * time.Second)
+	r.Hit("topic_deleted_while_loading")
+	r.Eval(fmt.Sprintf("delete-during-load/%s/del=%s/sub=%s", grp[:3], codeStr(fd), codeStr(fs)))
+	r.InfoAdd(fmt.Sprintf("delete_during_load:%s:held-at-call-%d:del=%s:sub=%s", grp[:3], holdAt, codeStr(fd), codeStr(fs)), 1)
+	script := []string{"member {sub} starts loading the group (slow store)", "owner {del topic} through an unattached session -> " + codeStr(fd), "member's {sub} -> " + codeStr(fs)}
+	if fd == nil {
+		r.Violation("unanswered:del:during-load", "{del topic} sent while the topic was being loaded was never answered", map[string]any{"script": script})
+	}
+	if fs == nil {
+		r.Violation("unanswered:sub:during-load", "{sub} whose topic was deleted while it was being loaded was never answered", map[string]any{"script": script})
+	}
+	if bl := c14Blocked(); len(bl) > 0 {
+		r.Violation("blocked-forever:"+bl[0]+":delete-during-load", "server goroutines are parked where only another goroutine could release them: "+strings.Join(bl, "; "), map[string]any{"script": script, "stacks": c14LastStacks, "settled": settled})
+		return
+	}
+	// the session is still served
+	f2 := m.sub("me", nil)
+	f3 := m.leave("me", false)
+	if f2 == nil || f3 == nil {
+		r.Violation("unanswered:after-delete-during-load", fmt.Sprintf("requests of the subscriber's session after the failed load: {sub me} -> %s, {leave me} -> %s", codeStr(f2), codeStr(f3)), map[string]any{"script": script})
 	}
 }
 
@@ -505,8 +588,11 @@ func TestVfC14(t *testing.T) {
 	e := vfBoot(vfConfig{Push: true})
 	vfInstallRecorder(e)
 	rng := r.Rand(1)
-	for i := 0; i < 2; i++ {
-		c14DetachRace(e, r, rng, i)
+	for i := 0; i < 4; i++ {
+		if i < 2 {
+			c14DetachRace(e, r, rng, i)
+		}
+		c14DeleteDuringLoad(e, r, rng, i)
 	}
 	rounds := r.Pick(4, 12)
 	for i := 0; i < rounds; i++ {
